@@ -139,7 +139,7 @@ def waiting_cancel(F, R, rule='B.C05.cancel'):
     to Stopped - and to nothing else (the transition relation extracted for B.SM.extract, this one row)."""
     names = state_names(F)
     flag_names, bindings, problems = owner_bindings(F)
-    if not R.check(names is not None and 'sound' in bindings, rule, 'anchor:resume-cancel', 'state machine / sound constructor not found'):
+    if not R.check(names is not None, rule, 'anchor:resume-cancel', 'state machine not found'):
         return
     rel = extract(F, 'update', names, None, flags=bindings.get('sound', {}))
     tos = set()
@@ -266,6 +266,8 @@ def run(ctx, R, tier):
                         sat = True
                     if kind == 'immediate' and 'PartialEq' in desc and '::eq(' in desc and 'StartTime::Immediate' in desc and bl is True:
                         sat = True
+                    if kind == 'immediate' and desc.startswith('discr(') and desc.endswith('.start_time)') and lab == 'Immediate':
+                        sat = True          # `matches!(start_time, StartTime::Immediate)`
                 if not sat:
                     ok = False
                     why = 'a path taking %s->%s does not pass the %s test; decisions: %s' % (a, b, kind, [d[1:] for d in dec])
@@ -648,7 +650,8 @@ def sound_rules(F, R):
                 be = bool_edges(body, x)
                 if be is not None:
                     silent.append(be[0])
-        skipped = [r for r in body.return_blocks() if not must_pass(body, [0], [r], [L['header']] + silent)]
+        from ..rules import must_pass_f
+        skipped = [r for r in body.return_blocks() if not must_pass_f(body, [r], [L['header']] + silent)]
         R.check(not skipped, 'B.C03.gate', tag + ':no-other-exit',
                 '%s can return at %s without running its per-frame loop and not through one of the documented silent exits: while that '
                 'path is taken the playhead stands still and the end of the sound is never noticed' % (body.path, body.where(skipped[0]) if skipped else ''),
